@@ -267,6 +267,11 @@ Theorem concat_l : forall a b, eval_sfn SConcat [VText (encode_utf8 a); VText (e
   eval_sfn SConcat [VText (encode_utf8 a); VNull] = OVal VNull /\ eval_sfn SConcat [VNull; VText (encode_utf8 b)] = OVal VNull.
 Proof. intros a b. cbn [eval_sfn concat_args app]. rewrite encode_utf8_app. repeat split; reflexivity. Qed.
 
+(* ---- STRCMP compares the byte strings, which orders them like their character lists *)
+Theorem strcmp_l : forall a b, cps_ok a = true -> cps_ok b = true ->
+  eval_sfn SStrcmp [VText (encode_utf8 a); VText (encode_utf8 b)] = OVal (VInt (cmp_lex a b)).
+Proof. intros a b Ha Hb. cbn [eval_sfn arg_text nth_error]. rewrite cmp_lex_encode by assumption. reflexivity. Qed.
+
 (* ---- NULL in, NULL out: a NULL in any required position makes the function return None, shown as NULL *)
 Theorem str_null_l : forall s n p,
   to_sql (eval_sfn SLength [VNull]) = OVal VNull /\ to_sql (eval_sfn SCharLength [VNull]) = OVal VNull /\
